@@ -120,9 +120,43 @@ def _sd(s, root: str) -> dict:
     return j
 
 
-def run_impl(case: dict):
-    """the history on the real code, in a scratch directory; returns (outs, files, counter)"""
+def _leaf_paths(v, pre=()):
+    if isinstance(v, dict):
+        for k, x in v.items():
+            yield from _leaf_paths(x, pre + (k,))
+    else:
+        yield pre, v
+
+
+def _sorted_everywhere(v) -> bool:
+    if isinstance(v, dict):
+        ks = list(v)
+        return ks == sorted(ks, key=lambda k: (isinstance(k, str), k)) and all(_sorted_everywhere(x) for x in v.values())
+    return True          # lists, and the dicts inside lists, keep their order
+
+
+def _peek(path):
+    """what a read of `path` returns now (placeholder entries dropped), without disturbing the history: the counter is put back"""
+    import spec
+    from dictIO import DictReader
+    from dictIO.utils.counter import BorgCounter
+    keep = BorgCounter.Borg["theCount"]
+    try:
+        return spec.strip_placeholders(impl.plain(DictReader.read(path)))
+    except BaseException:  # noqa: BLE001
+        return None
+    finally:
+        BorgCounter.Borg["theCount"] = keep
+
+
+def run_impl(case: dict, fails: list | None = None):
+    """the history on the real code, in a scratch directory; returns (outs, files, counter).
+    `fails` collects what the direct oracles of C15 / C16 find: after a completed write with order=True every dict level of the
+    target is sorted; an append keeps every leaf that was readable from the target before; any other write leaves exactly
+    the new dict"""
+    import spec
     from dictIO import DictParser, DictReader, DictWriter, SDict
+    from dictIO.dict_writer import create_target_file_name
     from dictIO.utils.counter import BorgCounter
     outs = []
     with impl.scratch() as td:
@@ -133,8 +167,13 @@ def run_impl(case: dict):
             (td / n).write_text(text)
         BorgCounter.reset()
         BorgCounter.Borg["theCount"] = case["start"]
-        for op in case["ops"]:
+        for idx, op in enumerate(case["ops"]):
             kw = {k: op[k] for k in ("includes", "order", "comments") if k in op}
+            tgt = before = None
+            if fails is not None and op["k"] in ("write", "dump", "parse"):
+                tgt = td / op["t"] if "t" in op else create_target_file_name(td / op["p"], prefix="parsed", scope=[int(k["i"]) if "i" in k else k["s"] for k in op.get("scope", [])] or None, output=op.get("output"))
+                before = _peek(tgt) if tgt.exists() and tgt.suffix not in (".json", ".xml") else None
+            n_before = len(outs)
             if "scope" in op:
                 kw["scope"] = [int(k["i"]) if "i" in k else k["s"] for k in op["scope"]]
             try:
@@ -151,6 +190,22 @@ def run_impl(case: dict):
                 elif op["k"] == "parse":
                     r = DictParser.parse(td / op["p"], mode=op["mode"], output=op.get("output"), **kw)
                     outs.append({"data": _sd(r, root)})
+                if tgt is not None and len(outs) > n_before and tgt.exists():
+                    after = _peek(tgt)
+                    mode = op.get("mode", "a")
+                    ordered = op.get("order", False)
+                    what = None
+                    if after is None:
+                        what = "the written file cannot be read back"
+                    elif ordered and not _sorted_everywhere({k: v for k, v in after.items() if k != "FoamFile"}):
+                        what = "written with order=True, but a dict level of the file is not sorted"
+                    elif mode == "a" and before is not None:
+                        lost = [list(pth) for pth, val in _leaf_paths({k: v for k, v in before.items() if k != "FoamFile"})
+                                if not any(pth == q and spec.unordered(val) == spec.unordered(w) for q, w in _leaf_paths(after))]
+                        if lost and not str(tgt).endswith(".foam"):
+                            what = f"append lost or changed what was readable from the target before: {lost[:3]}"
+                    if what:
+                        fails.append((idx, what))
             except FileNotFoundError:
                 outs.append("notFound")
             except SystemExit:
@@ -177,12 +232,15 @@ def request(case: dict, n: int | None = None) -> dict:
     return {"op": "api_run", "fs": [[_comps(n), {"native": t}] for n, t in case["pool"].items()], "start": case["start"], "ops": ops}
 
 
-def process(ctx: Ctx, cases: list[dict]) -> None:
+def process(ctx: Ctx, cases: list[dict], oracles: bool = False) -> None:
     impls = []
     for c in cases:
         kinds = tuple(sorted({"api:" + o["k"] for o in c["ops"]}))
         ctx.case(c, len(c["ops"]) > 1, kinds + (("api:wrap",) if c["start"] > 999900 else ()))
-        impls.append(run_impl(c))
+        fails = [] if oracles else None
+        impls.append(run_impl(c, fails))
+        for idx, what in fails or []:
+            ctx.violation("api history: " + what, {**c, "ops": c["ops"][: idx + 1]}, what, "property holds after every call", replay={**c, "ops": c["ops"][: idx + 1]})
     if ctx.oracle_only:
         return
     replies = ctx.driver([request(c, len(i[0])) for c, i in zip(cases, impls)])
@@ -212,6 +270,6 @@ def process(ctx: Ctx, cases: list[dict]) -> None:
             ctx.tag("api:agreed-to-the-end")
 
 
-def run(ctx: Ctx, quick: int = 150, thorough: int = 3000) -> None:
+def run(ctx: Ctx, quick: int = 150, thorough: int = 3000, oracles: bool = False) -> None:
     cases = [gen_case(ctx.rng) for _ in range(ctx.n(quick, thorough))]
-    process(ctx, cases)
+    process(ctx, cases, oracles)
